@@ -47,7 +47,8 @@ for sid in ids:
         if rc == 0:
             res["demo_patched_exit"] = run(["/venv/bin/python", f"{d}/demo.py"], W, 900, e)[0]
             after = pytest_fail_list(W, paths) if paths else ([], "no test paths in meta")
-            res["tests"] = {"paths": paths, "before": before[1], "after": after[1], "same_failure_list": before[0] == after[0]}
+            res["tests"] = {"paths": paths, "before": before[1], "after": after[1], "same_failure_list": before[0] == after[0],
+                            "new_failures_after": sorted(set(after[0]) - set(before[0]))[:20]}
         res["done"] = True
     finally:
         subprocess.run(["git", "-C", "/repo", "worktree", "remove", "--force", W])
